@@ -571,6 +571,10 @@ def header_count_rule(o, f, body, sites):
                     if isinstance(s2, ast.Assign) and isinstance(s2.targets[0], ast.Name) and isinstance(s2.value, ast.Constant) \
                             and s2.targets[0].id in [n.id for n in names]:
                         consts.setdefault(s2.targets[0].id, {})[side] = (s2.value.value, s)
+        if isinstance(s, ast.Assign) and len(s.targets) == 1 and isinstance(s.targets[0], ast.Name) and s.targets[0].id in [n.id for n in names] and s.lineno < target.lineno \
+                and isinstance(s.value, ast.IfExp) and isinstance(s.value.body, ast.Constant) and isinstance(s.value.orelse, ast.Constant):
+            # k = 6 if <header test> else 3: the two constants of a conditional expression (the node carries the test)
+            consts[s.targets[0].id] = {'then': (s.value.body.value, s.value), 'else': (s.value.orelse.value, s.value)}
         if isinstance(s, ast.AugAssign) and isinstance(s.target, ast.Name) and s.target.id in [n.id for n in names] and s.lineno < target.lineno:
             counted[s.target.id] = s
     if len(consts) != 1 or len(counted) != 1:
